@@ -46,8 +46,12 @@ class Rw(ast.NodeTransformer):
         f = ast.unparse(node.func)
         if f == "cast" and len(node.args) == 2 and not node.keywords:
             return node.args[1]
-        if f == "pendulum._safe_timezone" and len(node.args) == 1 and not node.keywords:
+        if f == "pendulum._safe_timezone" and len(node.args) == 1 and [k.arg for k in node.keywords] in ([], ["dt"]):
             return node.args[0]
+        if f == "_datetime.datetime.utcfromtimestamp" and len(node.args) == 1 and not node.keywords:
+            return ast.copy_location(ast.Call(func=ast.Name(id="_nat_utcfromtimestamp", ctx=ast.Load()), args=node.args, keywords=[]), node)
+        if f == "DateTime.create" or f == "cls.create":
+            return ast.copy_location(ast.Call(func=ast.Name(id="_create", ctx=ast.Load()), args=node.args, keywords=node.keywords), node)
         if f in ("cls", "self.__class__", "dt.__class__", "datetime.datetime", "_datetime.datetime"):
             return ast.copy_location(ast.Call(func=ast.Name(id="_nat_new", ctx=ast.Load()), args=node.args, keywords=node.keywords), node)
         if f == "self.__class__.create":
@@ -347,6 +351,40 @@ def gen(_shared):
         if rett != DT or monad != "result":
             raise P.Unsupported("DateTime.replace: unexpected type")
         out.append(text)
+
+    # ---------------- DateTime.instance, pendulum.datetime, pendulum.from_timestamp (integer timestamp, tz a timezone object)
+    cd.opaque["dt.tzinfo or tz"] = ("opt_tz_or (g_tz {dt}) {tz}", OTZ)
+    fn = _fn(dt_tree, "DateTime.instance", drop_first="cls")
+    if [a.arg for a in fn.args.args] != ["dt", "tz"] or [ast.unparse(d_) for d_ in fn.args.defaults] != ["UTC"]:
+        raise P.Unsupported("DateTime.instance: unexpected signature")
+    text, rett, monad = _tr(cd, fn, "glue_DateTime_instance", {"dt": DT, "tz": OTZ}, None,
+                            "translated from src/pendulum/datetime.py :: DateTime.instance (tzinfo of dt and tz: None or pendulum timezone objects; "
+                            "`dt.tzinfo or tz` = the first that is not None)", force_result=True)
+    out.append(text)
+    del cd.opaque["dt.tzinfo or tz"]
+    fn = _fn(init_tree, "datetime")
+    pparams = [a.arg for a in fn.args.args]
+    if pparams != FIELDS + ["tz", "fold", "raise_on_unknown_times"] or [ast.unparse(d_) for d_ in fn.args.defaults] != ["0", "0", "0", "0", "UTC", "1", "False"]:
+        raise P.Unsupported(f"pendulum.datetime: unexpected signature {pparams}")
+    text, rett, monad = _tr(cd, fn, "glue_pendulum_datetime", types, None, "translated from src/pendulum/__init__.py :: datetime", force_result=True)
+    out.append(text)
+    cd.kwfuncs["datetime"] = ("glue_pendulum_datetime",) + cd.kwfuncs["_create"][1:]
+    cd.funcs["_nat_utcfromtimestamp"] = ("nat_utcfromtimestamp", [Z], DT, "result")
+    from .g13_stdlib_zone import Specialise as _Sp
+    sp = _Sp("from_timestamp", {"tz != 'UTC'": True})
+    fn = sp.visit(copy.deepcopy(P.find_function(init_tree, "from_timestamp")))
+    if sp.used != {"tz != 'UTC'"}:
+        raise P.Unsupported("from_timestamp: the test `tz is not UTC or tz != 'UTC'` changed")
+    fn = Rw("from_timestamp").visit(fn)
+    ast.fix_missing_locations(fn)
+    if [a.arg for a in fn.args.args] != ["timestamp", "tz"] or [ast.unparse(d_) for d_ in fn.args.defaults] != ["UTC"]:
+        raise P.Unsupported("from_timestamp: unexpected signature")
+    text, rett, monad = _tr(cd, fn, "glue_from_timestamp", {"timestamp": Z, "tz": TZ}, None,
+                            "translated from src/pendulum/__init__.py :: from_timestamp SPECIALISED to an integer timestamp and a timezone OBJECT "
+                            "(then `tz != 'UTC'` is True, so in_timezone always runs)", force_result=True)
+    if rett != DT or monad != "result":
+        raise P.Unsupported("from_timestamp: unexpected type")
+    out.append(text)
 
     fn = _fn(dt_tree, "DateTime.int_timestamp")
     text, rett, monad = _tr(cd, fn, "glue_DateTime_int_timestamp", {}, DT, "translated from src/pendulum/datetime.py :: DateTime.int_timestamp (a property)",
